@@ -11,7 +11,7 @@ use crate::realrun::{self, CompileOutcome, RunCfg};
 use cvx_core::engine::{Check, CheckInfo, ChunkResult, Tier, Violation};
 use cvx_core::gen_basic::{CfgLite, Family};
 use cvx_core::gen_more::FCall;
-use cvx_core::gen_resolve::{FBadNames, FCallMain, FConcat, FImportScope, FResolve, FSuperLike};
+use cvx_core::gen_resolve::{FBadNames, FCallMain, FConcat, FImportScope, FResolve, FResolveTwo, FSuperLike};
 use cvx_core::ir::{b, call, func, int, module, rv, s, sg, Func, Module, C};
 use cvx_core::refsem::{self, CompileVerdict};
 use serde_json::Value as J;
@@ -123,7 +123,7 @@ impl Family for FLabelClash {
 }
 
 pub fn families(_tier: Tier) -> &'static Vec<Box<dyn Family>> {
-    FAMS.get_or_init(|| vec![Box::new(FCallMain), Box::new(FLabelClash), Box::new(FConcat), Box::new(FSuperLike), Box::new(FBadNames), Box::new(FCall), Box::new(FResolve), Box::new(FImportScope)])
+    FAMS.get_or_init(|| vec![Box::new(FCallMain), Box::new(FLabelClash), Box::new(FConcat), Box::new(FSuperLike), Box::new(FBadNames), Box::new(FCall), Box::new(FResolveTwo), Box::new(FResolve), Box::new(FImportScope)])
 }
 
 static JUDGE: ResolveJudge = ResolveJudge;
@@ -135,7 +135,7 @@ impl Check for C08 {
     fn info(&self, tier: Tier) -> CheckInfo {
         let fams = families(tier);
         CheckInfo {
-            rule: "F-resolve: 128 module trees (presence of f/g in root, a, a.b, b: same short names reused across modules) x call site in root / a / a.b x 10 called names (f, g, a.f, a.b.f, b.f, b.g, std.row_to_value, x, filter, a.b.g) x static Call / Function value + dynamic call x 20 import lists (function imports, module-prefix imports, super. walking up one to three levels, no dot, duplicates, ambiguous pairs, library imports); every generated function logs and returns its own full path. F-import-scope: the same trees with the import list on one module and the import-less caller in another (descendant, parent, sibling; 6 pairs) x 10 called names x 20 import lists. F-label-clash: the first three (function, 3-deep card path) pairs within 72 million searched card indices whose card label shares its 32-bit handle with an earlier function's label, as programs calling that function. F-concat: every ordered pair of 9 call sites (module path, called name) of which four read alike once path and name are written without a separator (root:abf, a:bf, a.b:f, ab:f), static and dynamic. F-badnames: invalid / reserved / duplicate function and module names and user functions named like library functions at three levels. F-call: arity 0-3, parameter binding, caller-locals canary, return positions, recursion. Oracle: independent resolver over the module tree (absolute path, caller's module, function imports, module-prefix imports) + reference run. 'states' = distinct reference outcomes per chunk".into(),
+            rule: "F-resolve-two: two call sites in one function, every ordered pair of the 10 called names x 20 import lists x caller in root / a / a.b x 3 trees (the second name must resolve independently of how the first was found). F-resolve: 128 module trees (presence of f/g in root, a, a.b, b: same short names reused across modules) x call site in root / a / a.b x 10 called names (f, g, a.f, a.b.f, b.f, b.g, std.row_to_value, x, filter, a.b.g) x static Call / Function value + dynamic call x 20 import lists (function imports, module-prefix imports, super. walking up one to three levels, no dot, duplicates, ambiguous pairs, library imports); every generated function logs and returns its own full path. F-import-scope: the same trees with the import list on one module and the import-less caller in another (descendant, parent, sibling; 6 pairs) x 10 called names x 20 import lists. F-label-clash: the first three (function, 3-deep card path) pairs within 72 million searched card indices whose card label shares its 32-bit handle with an earlier function's label, as programs calling that function. F-concat: every ordered pair of 9 call sites (module path, called name) of which four read alike once path and name are written without a separator (root:abf, a:bf, a.b:f, ab:f), static and dynamic. F-badnames: invalid / reserved / duplicate function and module names and user functions named like library functions at three levels. F-call: arity 0-3, parameter binding, caller-locals canary, return positions, recursion. Oracle: independent resolver over the module tree (absolute path, caller's module, function imports, module-prefix imports) + reference run. 'states' = distinct reference outcomes per chunk".into(),
             bound: format!("families {:?}, {} module trees", fams.iter().map(|f| format!("{}={}", f.name(), f.len())).collect::<Vec<_>>(), progcheck::total_cases(fams)),
             exhaustive: true,
             assumptions: vec![
